@@ -7,6 +7,7 @@ import (
 	"fmt"
 	"go/token"
 	"go/types"
+	"sort"
 	"strconv"
 	"strings"
 
@@ -845,5 +846,93 @@ func init() {
 			parts = append(parts, "#", f)
 		}
 		return concatAll(parts)
+	}
+}
+
+// ---- hashstructure.Hash: a deterministic hash of the deep (concrete) content ----------
+
+func init() {
+	externals["github.com/mitchellh/hashstructure.Hash"] = func(fr *frame, a []value) value {
+		stubHit(fr, "hashstructure.Hash(structural FNV)")
+		var sb strings.Builder
+		serialise(&sb, a[0], 0)
+		var h uint64 = 14695981039346656037
+		s := sb.String()
+		for k := 0; k < len(s); k++ {
+			h ^= uint64(s[k])
+			h *= 1099511628211
+		}
+		if h == 0 {
+			h = 1
+		}
+		return tuple{h, iface{}}
+	}
+}
+
+func serialise(sb *strings.Builder, v value, depth int) {
+	if depth > 60 {
+		panic(unsupported{"hash: structure too deep"})
+	}
+	switch v := v.(type) {
+	case sym, sstr:
+		panic(unsupported{"hashstructure.Hash of symbolic content"})
+	case nil:
+		sb.WriteString("nil;")
+	case *value:
+		if v == nil {
+			sb.WriteString("nilp;")
+			return
+		}
+		sb.WriteString("&")
+		serialise(sb, *v, depth+1)
+	case structure:
+		sb.WriteString("{")
+		for _, f := range v {
+			serialise(sb, f, depth+1)
+		}
+		sb.WriteString("}")
+	case array:
+		sb.WriteString("[")
+		for _, f := range v {
+			serialise(sb, f, depth+1)
+		}
+		sb.WriteString("]")
+	case []value:
+		fmt.Fprintf(sb, "s%d[", len(v))
+		for _, f := range v {
+			serialise(sb, f, depth+1)
+		}
+		sb.WriteString("]")
+	case iface:
+		if v.t == nil {
+			sb.WriteString("nili;")
+			return
+		}
+		sb.WriteString("i<" + v.t.String() + ">")
+		serialise(sb, v.v, depth+1)
+	case *omap:
+		if v == nil {
+			sb.WriteString("nilm;")
+			return
+		}
+		var parts []string
+		for _, e := range v.entries {
+			if e.deleted {
+				continue
+			}
+			var eb strings.Builder
+			serialise(&eb, e.key, depth+1)
+			eb.WriteString("=>")
+			serialise(&eb, e.val, depth+1)
+			parts = append(parts, eb.String())
+		}
+		sort.Strings(parts)
+		sb.WriteString("m{" + strings.Join(parts, ",") + "}")
+	case string:
+		fmt.Fprintf(sb, "%q;", v)
+	case *ssa.Function, *closure, *chanv, unsafePtr:
+		sb.WriteString("ref;")
+	default:
+		fmt.Fprintf(sb, "%T:%v;", v, v)
 	}
 }
